@@ -7,7 +7,7 @@ from ..dataflow import DefUse
 from .. import events as E
 from .. import types as T
 from ..guards import guarded_by, text_atom
-from ._h_E import Flow, arg, argn, nargs, facts_full, own_helper, args_by_params
+from ._h_E import decide, anchors_of, analysed_separately, cname, calls_E, nodes_calling_E, Flow, arg, argn, nargs, facts_full, own_helper, args_by_params
 
 EXPLANATION = (
   "Decides that engine state and stored actions cannot drift apart structurally: one gateway "
@@ -26,16 +26,34 @@ OTHER_INTERPRETER_MODULES = ("table_data_set", "migrations")
 
 
 def check(run, repo, tier):
-  w = World(repo)
-  r1_gateway(run, w)
-  r2_dispatch(run, w)
-  r3_change_capture(run, w)
-  r4_flush(run, w)
-  r5_flush_complete(run, w)
-  r6_interpreter(run, w)
-  r7_stored_writers(run, w)
-  r8_private_excluded(run, w)
-  r9_presence(run, w)
+  # each rule is decided on the code as written; when it is not satisfied there, it is asked again
+  # on the view with private helpers inlined (see _h_E.decide), so statements moved into a new
+  # helper keep their place
+  import os
+  _HERE = os.path.dirname(os.path.abspath(__file__))
+  decide(run, repo, [r1_gateway, r2_dispatch, r3_change_capture, r4_flush, r5_flush_complete, r6_interpreter, r7_stored_writers, r8_private_excluded, r9_presence],
+         anchors_of(os.path.join(_HERE, "c02.py"), os.path.join(_HERE, "_h_E.py"), os.path.join(_HERE, "../events.py")),
+         more_anchors=_role_anchors)
+
+
+def _role_anchors(w):
+  """Methods the rules find by role rather than by name (the flushers and the methods that end in
+  a flush): calls of these are what R4 looks for, so they are never inlined."""
+  eng = w.repo.cls("engine.Engine")
+  names = {f.name for f in eng.methods.values() if _is_flusher(w, f)}
+  changed = True
+  while changed:
+    changed = False
+    for f in eng.methods.values():
+      if f.name in names:
+        continue
+      fn = w.fn_of(f)
+      ns = nodes_calling_E(fn, lambda c, nm, f_: nm is not None and nm.startswith("self.") and
+                           nm.split(".")[-1] in names)
+      if ns and fn.cfg.dominated_by(fn.cfg.exit.id, ns):
+        names.add(f.name)
+        changed = True
+  return names
 
 
 def r1_gateway(run, w):
@@ -44,8 +62,11 @@ def r1_gateway(run, w):
   is_apply = E.is_engine_call("apply_doc_action")
   sites = []
   for fi in w.repo.all_functions():
+    if not analysed_separately(w, fi):
+      continue
     fn = w.fn_of(fi)
-    for (n, c, nm) in fn.calls():
+    fi = fn.fi
+    for (n, c, nm) in calls_E(fn):
       if is_apply(c, nm, fn):
         sites.append((fn, n, c))
       elif isinstance(c.func, ast.Attribute) and c.func.attr == "apply_doc_action" and \
@@ -57,7 +78,7 @@ def r1_gateway(run, w):
            nontrivial=False)
   gw = w.fn("useractions.UserActions._do_doc_action")
   cfg = gw.cfg
-  applies = [(n, c) for (n, c, nm) in gw.calls() if is_apply(c, nm, gw)]
+  applies = [(n, c) for (n, c, nm) in calls_E(gw) if is_apply(c, nm, gw)]
   if not applies:
     raise AnalysisError("gateway no longer calls apply_doc_action")
   flow = Flow(gw)
@@ -67,12 +88,12 @@ def r1_gateway(run, w):
     # stored.append(<the very value that is applied>): same local with the same reaching
     # bindings (so nothing rebinds it in between), or the same expression
     st = set()
-    for (m, c2, nm) in gw.calls():
+    for (m, c2, nm) in calls_E(gw):
       if endswith(nm, "out_actions.stored.append") and nargs(c2) == 1 and a_applied is not None:
         a_st = c2.args[0] if c2.args else c2.keywords[0].value
         if flow.same_value(a_st, m.id, a_applied, n.id):
           st.add(m.id)
-    di = {m.id for (m, c2, nm) in gw.calls() if endswith(nm, "out_actions.direct.append")}
+    di = {m.id for (m, c2, nm) in calls_E(gw) if endswith(nm, "out_actions.direct.append")}
     ok_st = bool(st) and cfg.dominated_by(n.id, st)
     run.ob(R1, gw.qualname, "stored.append(%s) dominates apply_doc_action(%s)" % (var, var),
            "the action applied is the action recorded", ok_st, fi=gw.fi, node=c)
@@ -85,7 +106,7 @@ def r1_gateway(run, w):
              "no stored action without the engine applying it",
              cfg.postdominated_by(s_, {n.id}), fi=gw.fi)
     # the direct flag reflects the indirection level
-    for (m, c2, nm) in gw.calls():
+    for (m, c2, nm) in calls_E(gw):
       if endswith(nm, "out_actions.direct.append"):
         a = c2.args[0] if c2.args else None
         a = flow.resolve(a, m.id)[0] if a is not None else None
@@ -102,13 +123,16 @@ def r2_dispatch(run, w):
   dnames = set(w.doc_action_names())
   n_dispatch = 0
   for fi in w.repo.all_functions():
+    if not analysed_separately(w, fi):
+      continue
     fn = w.fn_of(fi)
+    fi = fn.fi
     in_da = fi.cls is not None and fi.cls.qualname == "docactions.DocActions"
-    for (n, c, nm) in fn.calls():
-      # getattr(<x>.doc_actions, name)(...)
+    for (n, c, nm) in calls_E(fn):
+      # getattr(<x>.doc_actions, name), called on the spot or through a local
       f = c.func
-      if isinstance(f, ast.Call) and dotted(f.func) == "getattr" and f.args and \
-          endswith(fn.name(f.args[0]) or "", "doc_actions"):
+      if dotted(c.func) == "getattr" and c.args and \
+          endswith(cname(fn, c.args[0]) or "", "doc_actions"):
         n_dispatch += 1
         run.ob(R2, fi.qualname, short(c), "dynamic dispatch on DocActions happens in "
                "Engine.apply_doc_action only", fi.qualname == "engine.Engine.apply_doc_action",
@@ -116,7 +140,7 @@ def r2_dispatch(run, w):
         continue
       if isinstance(f, ast.Attribute) and f.attr in dnames:
         rt = fn.type_of(f.value)
-        if rt == T.DOCACTIONS or endswith(fn.name(f.value) or "", "doc_actions"):
+        if rt == T.DOCACTIONS or endswith(cname(fn, f.value) or "", "doc_actions"):
           ok = in_da and isinstance(f.value, ast.Name) and f.value.id == "self"
           run.ob(R2, fi.qualname, short(c), "direct call of a DocActions method only as sibling "
                  "delegation", ok, fi=fi, node=c, nontrivial=False)
@@ -129,7 +153,7 @@ def r3_change_capture(run, w):
                 "recording (row, previous, value) in the _changes_map entry of that node", floor=3)
   fn = w.fn("engine.Engine._recompute_step")
   cfg = fn.cfg
-  sets = [(n, c) for (n, c, nm) in fn.calls() if E.is_column_mutation(c, nm, fn)]
+  sets = [(n, c) for (n, c, nm) in calls_E(fn) if E.is_column_mutation(c, nm, fn)]
   if not sets:
     raise AnalysisError("_recompute_step: column write not found")
   flow = Flow(fn)
@@ -141,7 +165,7 @@ def r3_change_capture(run, w):
       continue
     caps = set()
     cap_sites = []
-    for (m, c2, nm) in fn.calls():
+    for (m, c2, nm) in calls_E(fn):
       if isinstance(c2.func, ast.Attribute) and c2.func.attr == "append" and nargs(c2) == 1 and \
           c2.args:
         tup = flow.resolve(c2.args[0], m.id)
@@ -159,7 +183,7 @@ def r3_change_capture(run, w):
       # the list is the _changes_map entry for this node (None / empty until the first change)
       ls = flow.leaves(lst, mid)
       def entry(x, k):
-        return isinstance(x, ast.Call) and endswith(fn.name(x), "_changes_map.setdefault") and \
+        return isinstance(x, ast.Call) and endswith(cname(fn, x), "_changes_map.setdefault") and \
             bool(x.args) and flow.itext(x.args[0], k, stop=(node_param,)) == node_param
       def empty(x):
         return (isinstance(x, ast.Constant) and x.value is None) or \
@@ -182,8 +206,11 @@ def r3_change_capture(run, w):
              "previous value is read from the same cell", ok_prev, fi=fn.fi)
   # who fills _changes_map: only _recompute_step
   for fi in w.repo.all_functions():
+    if not analysed_separately(w, fi):
+      continue
     fnx = w.fn_of(fi)
-    for (n, c, nm) in fnx.calls():
+    fi = fnx.fi
+    for (n, c, nm) in calls_E(fnx):
       if endswith(nm, "_changes_map.setdefault", "_changes_map.__setitem__", "_changes_map.update"):
         run.ob(R3, fi.qualname, short(c), "_changes_map is filled by _recompute_step only",
                fi.qualname == "engine.Engine._recompute_step", fi=fi, node=c, nontrivial=False)
@@ -195,7 +222,7 @@ def _emitting_helper(w, fn, call):
   if h is None:
     return None
   hfn = w.fn_of(h)
-  if any(E.is_summary_add_changes(c, nm, hfn) for (n, c, nm) in hfn.calls()):
+  if any(E.is_summary_add_changes(c, nm, hfn) for (n, c, nm) in calls_E(hfn)):
     return h
   return None
 
@@ -204,10 +231,10 @@ def _is_flusher(w, fi):
   """A function that forwards every _changes_map entry to summary.add_changes (directly, or
   through a helper of its own class called per entry)."""
   fn = w.fn_of(fi)
-  for s in ast.walk(fi.node):
+  for s in ast.walk(fn.node):
     if isinstance(s, ast.For) and isinstance(s.iter, ast.Call) and \
-        endswith(fn.name(s.iter) or "", "_changes_map.items"):
-      if any(E.is_summary_add_changes(c, fn.name(c), fn) or _emitting_helper(w, fn, c) is not None
+        endswith(cname(fn, s.iter) or "", "_changes_map.items"):
+      if any(E.is_summary_add_changes(c, cname(fn, c), fn) or _emitting_helper(w, fn, c) is not None
              for c in calls_in(s.body)):
         return True
   return False
@@ -244,17 +271,20 @@ def r4_flush(run, w):
       if f.name in flush_callers:
         continue
       fn = w.fn_of(f)
-      ns = fn.nodes_calling(calls_flusher)
+      ns = nodes_calling_E(fn, calls_flusher)
       if ns and fn.cfg.dominated_by(fn.cfg.exit.id, ns):
         flush_callers.add(f.name)
         changed = True
   # (a) every call of _update_loop is post-dominated by a flush, exceptional exits included
   n_loops = 0
   for f in eng.methods.values():
+    if not analysed_separately(w, f):
+      continue
     fn = w.fn_of(f)
+    f = fn.fi
     cfg = fn.xcfg
-    fl = fn.nodes_calling(calls_flusher, cfg)
-    for (n, c, nm) in fn.calls(cfg):
+    fl = nodes_calling_E(fn, calls_flusher, cfg)
+    for (n, c, nm) in calls_E(fn, cfg):
       if nm == "self._update_loop":
         n_loops += 1
         ok = cfg.postdominated_by(n.id, fl, exits={cfg.exit.id, cfg.raise_exit.id})
@@ -269,24 +299,30 @@ def r4_flush(run, w):
     raise AnalysisError("fewer than 3 _update_loop call sites found")
   # (b) _recompute_step (the only filler) runs only inside an update loop
   for f in w.repo.all_functions():
+    if not analysed_separately(w, f):
+      continue
     fn = w.fn_of(f)
-    for (n, c, nm) in fn.calls():
+    f = fn.fi
+    for (n, c, nm) in calls_E(fn):
       if isinstance(c.func, ast.Attribute) and c.func.attr == "_recompute_step":
         ok = f.qualname in ("engine.Engine._update_loop", "engine.Engine._recompute")
         if f.qualname == "engine.Engine._recompute":
           # only on the branch where an update loop is already running (any spelling of the guard)
-          ok = guarded_by(fn.cfg, n.id, text_atom("self._in_update_loop"), True,
-                          kills=_flag_writes(fn.cfg, "_in_update_loop"))
+          ok = Flow(fn).guarded(n.id, lambda e, i: text(e) == "self._in_update_loop", True,
+                                extra_kills=_flag_writes(fn.cfg, "_in_update_loop"))
         run.ob(R4, f.qualname, short(c), "_recompute_step runs inside an update loop only", ok,
                fi=f, node=c)
   # (c) kills of _changes_map: dominated by a flush in the same function, or the function is
   #     only a frame opener whose callers all run outside update loops (checked in (d))
   for f in w.repo.all_functions():
+    if not analysed_separately(w, f):
+      continue
     fn = w.fn_of(f)
+    f = fn.fi
     if f.qualname == "engine.Engine.__init__":
       continue
     cfg = fn.cfg
-    fl = fn.nodes_calling(calls_flusher)
+    fl = nodes_calling_E(fn, calls_flusher)
     for n in cfg.nodes:
       kill = False
       s = n.stmt
@@ -296,7 +332,7 @@ def r4_flush(run, w):
           if isinstance(t, ast.Attribute) and t.attr == "_changes_map":
             kill = True
       for c in calls_in(n.exprs):
-        if endswith(fn.name(c) or "", "_changes_map.clear", "_changes_map.pop",
+        if endswith(cname(fn, c) or "", "_changes_map.clear", "_changes_map.pop",
                     "_changes_map.popitem"):
           kill = True
       if not kill:
@@ -310,12 +346,12 @@ def r4_flush(run, w):
   #     from formula evaluation (via apply_doc_action) is guarded by `not self._in_update_loop`
   ad = w.fn("engine.Engine.apply_doc_action")
   cfg = ad.cfg
-  calls = [(n, c) for (n, c, nm) in ad.calls() if nm == "self._bring_mlookups_up_to_date"]
+  calls = [(n, c) for (n, c, nm) in calls_E(ad) if nm == "self._bring_mlookups_up_to_date"]
   if not calls:
     raise AnalysisError("apply_doc_action no longer calls _bring_mlookups_up_to_date")
   for (n, c) in calls:
-    ok = guarded_by(cfg, n.id, text_atom("self._in_update_loop"), False,
-                    kills=_flag_writes(cfg, "_in_update_loop"))
+    ok = Flow(ad).guarded(n.id, lambda e, i: text(e) == "self._in_update_loop", False,
+                          extra_kills=_flag_writes(cfg, "_in_update_loop"))
     run.ob(R4, ad.qualname, short(c), "metadata-lookup frame is opened only outside update loops "
            "(a nested frame would discard the outer loop's recorded changes)", ok, fi=ad.fi, node=c)
 
@@ -331,7 +367,7 @@ def r5_flush_complete(run, w):
     flow = Flow(fn)
     cfg = fn.cfg
     heads = [n for n in cfg.nodes if n.kind == "for" and isinstance(n.stmt.iter, ast.Call) and
-             endswith(fn.name(n.stmt.iter) or "", "_changes_map.items")]
+             endswith(cname(fn, n.stmt.iter) or "", "_changes_map.items")]
     ok = len(heads) == 1
     if ok:
       head = heads[0]
@@ -339,7 +375,7 @@ def r5_flush_complete(run, w):
       def private_test(t, pol):
         return isinstance(t, ast.Call) and isinstance(t.func, ast.Attribute) and \
             t.func.attr == "is_private" and not t.args and pol is False
-      emits = [(n, c) for (n, c, nm) in fn.calls() if n.id in body and
+      emits = [(n, c) for (n, c, nm) in calls_E(fn) if n.id in body and
                (E.is_summary_add_changes(c, nm, fn) or _emitting_helper(w, fn, c) is not None)]
       ok = len(emits) == 1
       for (n, c) in emits:
@@ -358,7 +394,7 @@ def r5_flush_complete(run, w):
           hfn = w.fn_of(h)
           hflow = Flow(hfn)
           hps = h.params()[1:]
-          hem = [hn for (hn, hc, hnm) in hfn.calls() if E.is_summary_add_changes(hc, hnm, hfn)]
+          hem = [hn for (hn, hc, hnm) in calls_E(hfn) if E.is_summary_add_changes(hc, hnm, hfn)]
           ok = ok and len(hem) == 1
           for hn in hem:
             for (t, pol, i) in hflow.required_facts(hn.id):
@@ -374,8 +410,8 @@ def r5_flush_complete(run, w):
            "only empty change lists and private columns are withheld from the summary", ok, fi=f)
   au = w.fn("engine.Engine.apply_user_actions")
   cfg = au.cfg
-  fl = au.nodes_calling(lambda c, nm, f: endswith(nm, "out_actions.flush_calc_changes"))
-  recalc = au.nodes_calling(lambda c, nm, f: nm in ("self._bring_all_up_to_date",
+  fl = nodes_calling_E(au, lambda c, nm, f: endswith(nm, "out_actions.flush_calc_changes"))
+  recalc = nodes_calling_E(au, lambda c, nm, f: nm in ("self._bring_all_up_to_date",
                                                     "self.docmodel.apply_auto_removes"))
   rets = {n.id for n in cfg.nodes if n.kind == "return"} | {cfg.exit.id}
   ok = bool(fl) and bool(recalc) and all(cfg.postdominated_by(r, fl) for r in recalc) and \
@@ -417,11 +453,14 @@ def r7_stored_writers(run, w):
     "action_obj.ActionGroup.from_json_obj": "deserialisation of a group",
   }
   for fi in w.repo.all_functions():
+    if not analysed_separately(w, fi):
+      continue
     fn = w.fn_of(fi)
+    fi = fn.fi
     for x in func_nodes(fi):
       hit = None
       if isinstance(x, ast.Call):
-        nm = fn.name(x)
+        nm = cname(fn, x)
         if endswith(nm, "out_actions.stored.append", "out_actions.stored.extend",
                     "out_actions.stored.insert", "out_actions.stored.pop",
                     "out_actions.stored.remove", "out_actions.stored.clear"):
@@ -448,12 +487,26 @@ def r7_stored_writers(run, w):
   # InitNewDoc's bulk write is schema_create_actions(), the same function that builds the
   # engine's built-in tables
   init = w.fn("useractions.UserActions.InitNewDoc")
-  ext = [c for (n, c, nm) in init.calls() if endswith(nm, "out_actions.stored.extend")]
   iflow = Flow(init)
-  ok = len(ext) == 1 and nargs(ext[0]) == 1 and bool(ext[0].args) and all(
-    iflow.denotes(ext[0].args[0], k, lambda v, kk: isinstance(v, ast.Call) and
-                  endswith(dotted(v.func), "schema_create_actions"))
-    for k in iflow.where(ext[0]))
+  def creation_actions(v, kk):
+    return isinstance(v, ast.Call) and endswith(dotted(v.func), "schema_create_actions")
+  writes = [(n, c, nm) for (n, c, nm) in calls_E(init)
+            if endswith(nm, "out_actions.stored.extend", "out_actions.stored.append",
+                        "out_actions.stored.insert")]
+  ok = len(writes) == 1
+  for (n, c, nm) in writes:
+    a0 = c.args[0] if nargs(c) == 1 and c.args else None
+    if a0 is None:
+      ok = False
+    elif nm.endswith(".extend"):
+      ok = ok and iflow.denotes(a0, n.id, creation_actions)
+    elif nm.endswith(".append"):
+      # one by one: the appended value is the variable of a loop over the creation actions
+      src = iflow.loop_source(a0, n.id)
+      ok = ok and src is not None and iflow.denotes(src[0], src[1], creation_actions) and \
+          not iflow.facts_inside(n.id, src[1])
+    else:
+      ok = False
   run.ob(R7, init.qualname, "stored.extend(schema.schema_create_actions())",
          "the only unapplied stored actions are the built-in schema creation actions", ok,
          fi=init.fi)
@@ -517,19 +570,22 @@ def r9_presence(run, w):
                 "only default the 'before' state", floor=4)
   for meth, after_val, before_val in (("add_records", True, False), ("remove_records", False, True)):
     fn = w.fn("action_summary.ActionSummary." + meth)
+    flow = Flow(fn)
     got_after = got_before = None
-    for x in func_nodes(fn.fi):
-      if isinstance(x, ast.Assign) and isinstance(x.targets[0], ast.Subscript) and \
-          isinstance(x.targets[0].value, ast.Attribute) and \
-          x.targets[0].value.attr == "_rows_present_after" and isinstance(x.value, ast.Constant):
-        got_after = x.value.value
-      if isinstance(x, ast.Call) and isinstance(x.func, ast.Attribute) and \
-          x.func.attr == "setdefault" and isinstance(x.func.value, ast.Attribute):
-        if x.func.value.attr == "_rows_present_before" and len(x.args) == 2 and \
-            isinstance(x.args[1], ast.Constant):
-          got_before = x.args[1].value
-        if x.func.value.attr == "_rows_present_after":
-          got_after = "setdefault"
+    for n in fn.cfg.nodes:
+      if n.kind == "stmt" and isinstance(n.stmt, ast.Assign):
+        for t in n.stmt.targets:
+          if isinstance(t, ast.Subscript) and \
+              endswith(cname(fn, t.value) or "", "_rows_present_after"):
+            v = flow.resolve(n.stmt.value, n.id)[0]
+            got_after = v.value if isinstance(v, ast.Constant) else "non-constant"
+    for (n, c, nm) in calls_E(fn):
+      if endswith(nm, "_rows_present_before.setdefault") and nargs(c) == 2 and len(c.args) == 2:
+        v = flow.resolve(c.args[1], n.id)[0]
+        if isinstance(v, ast.Constant):
+          got_before = v.value
+      if endswith(nm, "_rows_present_after.setdefault"):
+        got_after = "setdefault"
     run.ob(R9, fn.qualname, "_rows_present_after[r] = %s" % after_val,
            "the last add/remove of a row decides its final presence (plain assignment)",
            got_after is after_val, fi=fn.fi)
